@@ -21,13 +21,17 @@ Theorem C05_client_routed_all : forall items inb nw wf,
   routed (crecv inb nw wf items) = processed nw wf items.
 Proof. exact crecv_routed. Qed.
 
-(* every acknowledgement request processed is answered, in order *)
+(* every acknowledgement request processed is answered, in order: the answers the loop
+   writes or tries to write are exactly one per request, each with the right count; when
+   no write fails they are all written (a write that fails -- the connection is going
+   away -- does not end the loop: what was received before the loss is still processed) *)
 Theorem C05_acks_answered : forall items inb nw wf,
-  answers (crecv inb nw wf items) = expected_answers inb (processed nw wf items) /\
+  attempted (crecv inb nw wf items) = expected_answers inb (processed nw wf items) /\
   length (expected_answers inb (processed nw wf items))
-    = length (filter is_r (processed nw wf items)).
+    = length (filter is_r (processed nw wf items)) /\
+  answers (crecv inb nw None items) = attempted (crecv inb nw None items).
 Proof.
-  intros items inb nw wf. split; [apply crecv_answers|].
+  intros items inb nw wf. split; [apply crecv_answers|]. split; [|apply crecv_answers_written].
   generalize (processed nw wf items) inb. clear.
   induction l as [|i l IH]; intros inb; [reflexivity|].
   destruct i; cbn [expected_answers filter is_r length]; rewrite ?IH; reflexivity.
